@@ -75,6 +75,8 @@ GenOf(T, op, f, mode) ==
       [] op = "sqrt" -> (IF mode = "bits" THEN 0 ELSE 4)
       [] op = "product" -> (IF mode = "bits" THEN 0 ELSE 5)
       [] op = "rsqrt" -> 6 [] op = "rcp" -> 7 [] op = "crcp" -> 9
+      \* horizontal minimum / maximum on small data: draw d carries its unique extreme in lane d mod N (with N draws every lane holds it once)
+      [] op \in {"minimum", "maximum"} /\ mode = "small" -> 11
       [] OTHER -> 0
 RangeOf(op, f) == CASE op \in {"mul", "dot", "norm"} \cup FmaOps -> 30 [] op = "div" -> 100 [] OTHER -> 1000
 IterOf(op, f) == CASE op \in {"mload", "mstore"} /\ f = "gp" -> 3      \* remainder masks 2^r - 1, r = 0..N, with lanes >= r inside a PROT_NONE page
@@ -103,7 +105,7 @@ Cases ==
                        \* generic / fixed_size vectors: mask type chosen from the lane count (uint8_t up to 8 lanes, then uint16_t, uint32_t, uint64_t)
                        mbits |-> (IF p[2] \in {"sse", "avx", "avx512"} THEN MK!DeclBits(p[1], p[2])
                                   ELSE LET nl == LaneCount(p[1], p[2], p[3]) IN IF nl <= 8 THEN 8 ELSE IF nl <= 16 THEN 16 ELSE IF nl <= 32 THEN 32 ELSE 64),
-                       ndraw |-> NDraw(of[1], of[2], m[1]), iter |-> IterOf(of[1], of[2]), aligned |-> AlignedOf(of[1], of[2]),
+                       ndraw |-> (IF of[1] \in {"minimum", "maximum"} /\ m[1] = "small" THEN LaneCount(p[1], p[2], p[3]) ELSE NDraw(of[1], of[2], m[1])), iter |-> IterOf(of[1], of[2]), aligned |-> AlignedOf(of[1], of[2]),
                        masks |-> IF of[1] \in {"mload", "mstore"} /\ of[2] # "gp"
                                  THEN SetToSortSeq(MaskSet(LaneCount(p[1], p[2], p[3]), of[2], Salt(p[1], p[2], of[2])), LAMBDA x, y : x < y) ELSE <<>>]
                      : m \in Modes(p[1], of[1], of[2]) }
